@@ -115,9 +115,9 @@ PROPS = {
         "assumptions": ["skiplist insert/delete atomic at this level (C13)", "sync/atomic sequentially consistent; plain reads of Item.deadSn atomic (amd64)", "one writer per goroutine, no NewSnapshot during the window"],
     },
     "C04": {
-        "runs": [run("smr", 300, 6000, model=False), run("nitro-mm", 500, 8000), run("stress", 6, 120, model=False)],
-        "level_text": "Theorems: ebr_safe / freed_absorbing (reclamation protocol, every event sequence: if accesses happen inside a token on nodes reached under it, flushed nodes are unlinked at every level and stay so, and destructors obey the barrier contract, then no accessor touches freed memory and nothing is freed twice); barrier_contract (the access barrier meets that contract for ALL programs and schedules — C16/C17). Tie: (a) writer goroutines on instances with user-managed memory on the guard allocator (every block its own mmap, PROT_NONE after free, never reused), scheduled at the publish CAS, own-pointer/upper-level link/re-check, mark CAS, help-delete CAS and between GetNode and DeleteNode, each case in a child process: a use-after-free is a SIGSEGV, double/unknown frees are recorded, a walk that never follows a pointer into freed memory finds freed-but-linked nodes, Close must leave nothing live; (b) the concurrent-writer model (C03) replayed on the guard allocator; (c) free-running stress with readers, refresh rates, snapshot churn, GC and free workers.",
-        "level_note": "Partial by nature: the protocol theorem is about event traces; that the Go loads/stores correspond to those events (accesses only inside tokens, reach discipline) is established by reading the code and by the guard-allocator runs, not by proof. The two obligations the original code violated (D8: Delete2 accessed a node outside a token; D9: Insert4 relinked a deleted node) were found by these runs and repaired.",
+        "runs": [run("smr", 300, 6000, model=False), run("nitro-mm", 500, 8000), run("barrier", 600, 10000), run("stress", 6, 120, model=False)],
+        "level_text": "Theorems: ebr_safe / freed_absorbing (reclamation protocol, every event sequence: if accesses happen inside a token on nodes reached under it, flushed nodes are unlinked at every level and stay so, and destructors obey the barrier contract, then no accessor touches freed memory and nothing is freed twice); barrier_contract (the access barrier meets that contract for ALL programs and schedules — C16/C17). Tie: (a) writer goroutines on instances with user-managed memory on the guard allocator (every block its own mmap, PROT_NONE after free, never reused), scheduled at the publish CAS, successor test/own-pointer/upper-level link/re-check, mark CAS, help-delete CAS, between GetNode and DeleteNode, and (one-key duels with tall nodes) inside the path search and inside Acquire, each case in a child process: a use-after-free is a SIGSEGV, double/unknown frees are recorded, a walk that never follows a pointer into freed memory finds freed-but-linked nodes, Close must leave nothing live; (b) the concurrent-writer model (C03) replayed on the guard allocator; (c) the barrier machine behind barrier_contract replayed against skiplist/access_barrier.go step by step (as C16); (d) free-running stress with readers, refresh rates, snapshot churn, GC and free workers.",
+        "level_note": "Partial by nature: the protocol theorem is about event traces; that the Go loads/stores correspond to those events (accesses only inside tokens, reach discipline) is established by reading the code and by the guard-allocator runs, not by proof. The obligations the original code violated (D8: Delete2 accessed a node outside a token; D9: Insert4 relinked a deleted node; D15: Insert4 linked a node in front of a deleted equal item) were found by these runs (D15: by a refuted lemma first) and repaired.",
         "assumptions": ["accessors dereference nodes only between Acquire and Release (Insert3, Delete, DeleteNode, iterators, repaired Delete2)", "guard allocator faults on every access to a freed block (page granularity)", "sync/atomic sequentially consistent"],
     },
 }
